@@ -268,6 +268,33 @@ def _contains(node, target):
     return any(n is target for n in ast.walk(node))
 
 
+def _locked_regions(fn, lock):
+    """Statement lists of `fn` that run while `lock` (e.g. 'self.lock') is held:
+    `lock.acquire(); try: <region> finally: lock.release()`  or  `with lock: <region>`."""
+    regions = []
+    for n in ast.walk(fn):
+        for field in ("body", "orelse", "finalbody"):
+            stmts = getattr(n, field, None)
+            if not isinstance(stmts, list):
+                continue
+            for i, st in enumerate(stmts):
+                if isinstance(st, ast.With) and [_u(it.context_expr) for it in st.items] == [lock]:
+                    regions.append(st.body)
+                if isinstance(st, ast.Expr) and _u(st) == lock + ".acquire()" and i + 1 < len(stmts) \
+                        and isinstance(stmts[i + 1], ast.Try) \
+                        and any(_u(f) == lock + ".release()" for f in stmts[i + 1].finalbody):
+                    regions.append(stmts[i + 1].body)
+    return regions
+
+
+def _same_region(regions, *nodes):
+    """all nodes lie inside one and the same locked region"""
+    for reg in regions:
+        if all(any(_contains(st, nd) for st in reg) for nd in nodes):
+            return True
+    return False
+
+
 def _accept_row(fn):
     call = _single_wait(fn, "self.server_accept_cv", "accept")
     if [_u(a) for a in call.args] != ["timeout"]:
@@ -277,10 +304,17 @@ def _accept_row(fn):
             raise Unrecognised("accept: the wait is inside a loop (shape not recognised)")
     # the active test counts when it is decided before the wait is reached: an `if not self.active`
     # (or elif) whose else-branch contains the wait and whose body does not
+    # ... AND test and wait happen under one hold of the condition's lock (self.lock): a test made
+    # before the lock is taken can be overtaken by close()'s notify_all (lost wake-up), so it gives
+    # no guarantee and is not counted.
+    regions = _locked_regions(fn, "self.lock")
+    if not _same_region(regions, call):
+        raise Unrecognised("accept: server_accept_cv.wait is not inside a self.lock region")
     has_pre = False
     for n in ast.walk(fn):
         if isinstance(n, ast.If) and _u(n.test) == "not self.active" \
-                and any(_contains(s, call) for s in n.orelse) and not any(_contains(s, call) for s in n.body):
+                and any(_contains(s, call) for s in n.orelse) and not any(_contains(s, call) for s in n.body) \
+                and _same_region(regions, n, call):
             has_pre = True
     exit_on = ["FInactive"] if has_pre else []
     # after waking it returns whatever is there (a channel or None): no loop
@@ -297,11 +331,13 @@ def _pipe_read_row(fn):
         raise Unrecognised("BufferedPipe.read: wait argument is not the caller's timeout")
     closed_tested = bool(re.search(r"not self\._closed", test)) and " or " not in test
     exit_on = ["FPipeClosed"] if closed_tested else []
-    # `while <cond>: wait` tests the condition before the first wait and after every wake-up
-    return row("ApiRecv", "CvInBuf", None, True, True, True, exit_on)
+    # `while <cond>: wait` tests the condition before the first wait and after every wake-up;
+    # atomic only if the whole loop runs under the condition's lock
+    atomic = _same_region(_locked_regions(fn, "self._lock"), loops[0])
+    return row("ApiRecv", "CvInBuf", None, True, atomic, True, exit_on)
 
 
-def _send_window_row(fn):
+def _send_window_row(fn, send_fn):
     call = _single_wait(fn, "self.out_buffer_cv", "_wait_for_send_window")
     loops = [n for n in ast.walk(fn) if isinstance(n, ast.While) and _contains(n, call)]
     if len(loops) != 1:
@@ -317,7 +353,12 @@ def _send_window_row(fn):
                 and s.body and isinstance(s.body[-1], (ast.Return, ast.Raise)):
             closed_tested = True
     exit_on = ["FChanClosed"] if closed_tested else []
-    return row("ApiSend", "CvOutBuf", None, True, closed_tested, True, exit_on)
+    # "you are already holding the lock": the call in Channel._send must sit in a self.lock region
+    calls = [n for n in ast.walk(send_fn) if isinstance(n, ast.Call) and _u(n.func) == "self._wait_for_send_window"]
+    if len(calls) != 1:
+        raise Unrecognised("Channel._send: expected one call of _wait_for_send_window")
+    atomic = _same_region(_locked_regions(send_fn, "self.lock"), calls[0])
+    return row("ApiSend", "CvOutBuf", None, True, closed_tested and atomic, True, exit_on)
 
 
 def _event_wait_row(fn, expr, api, prim, label):
@@ -360,7 +401,7 @@ def generate(repo):
         _polling_row(_fn(A, "wait_for_response"), "ApiAuth", "EvAuth", "wait_for_response"),
         _accept_row(_fn(T, "accept")),
         _pipe_read_row(_fn(B, "read")),
-        _send_window_row(_fn(C, "_wait_for_send_window")),
+        _send_window_row(_fn(C, "_wait_for_send_window"), _fn(C, "_send")),
         _event_wait_row(_fn(C, "_wait_for_event"), "self.event", "ApiChanRequest", "EvChanEvent", "_wait_for_event"),
         _event_wait_row(_fn(C, "recv_exit_status"), "self.status_event", "ApiExitStatus", "EvChanStatus",
                         "recv_exit_status"),
